@@ -281,8 +281,8 @@ fn locality_oracle(c: &LocalityCase, info: &mut Case) -> Result<(), String> {
 }
 
 pub fn run(ctx: &Ctx) {
-    let n_stream = ctx.tier.pick(120_000, 3_000_000);
-    let n_local = ctx.tier.pick(30_000, 600_000);
+    let n_stream = ctx.tier.pick(480_000, 6_000_000);
+    let n_local = ctx.tier.pick(120_000, 1_200_000);
     ctx.explore("stream", n_stream, 16, stream_strategy, stream_oracle);
     ctx.explore("locality", n_local, 16, locality_strategy, locality_oracle);
 }
